@@ -13,6 +13,7 @@ RunResult execForProp(const Plan& plan);
 // implemented per build variant
 RunResult execMemoryDifferential(const Plan& plan);  // mem.cpp
 RunResult execThreads(const Plan& plan);             // threads.cpp
+RunResult execInstances(const Plan& plan);           // threads.cpp: the same workloads interleaved on one thread (C19, asan variant)
 const char* variantName();
 // C19: the switch sequence (yield index, next thread) of the last scheduled run in this process
 const std::vector<std::pair<uint64_t, int>>& lastSwitchLog();
